@@ -57,7 +57,7 @@ func holdsError(d *D) *D {
 }
 
 func fmtCompatibleOperand(d *D) bool {
-	return !containsKind(d, "Safe", "Unsafe", "SafeFmtErr", "PSafeFmtErr", "SafeFmt", "RS", "RB", "Builder", "PBuilder", "SafeMsg")
+	return !containsKind(d, "Safe", "Unsafe", "SafeFmtErr", "PSafeFmtErr", "SafeFmt", "RS", "RB", "Builder", "PBuilder", "SafeMsg") && !containsReadOnlyRedactable(d)
 }
 
 // undispatched: operands that printArg handles before method dispatch (nil and
@@ -126,7 +126,7 @@ func c15check(w *Worker, format string, dirs []c15dir, operands []*D, idx int64)
 		for o.K == "Safe" || o.K == "Unsafe" {
 			o = o.Sub[0]
 		}
-		if strings.HasPrefix(o.K, "RValue") {
+		if strings.HasPrefix(o.K, "RV") {
 			// a reflect.Value at a %w position: whether it "holds an error" is not
 			// said by the statement (fmt.Errorf and the code disagree too): not decided
 			w.Count("excluded_reflect_value_at_w", 1)
